@@ -90,7 +90,7 @@ def main(run):
     tree_configs(run, random.Random(run.shard_seed + 17), 16 if run.tier == "quick" else 40)
     for i in range(N_CFG[run.tier]):
         exact = (i % 3 != 2)
-        cfg = gen_cfg(rnd, "sage", exact)
+        cfg = gen_cfg(rnd, "sage", exact, allow_discontinuous=True)
         seed = rnd.randrange(2 ** 31)
         try:
             sc = Scenario(cfg, seed)
